@@ -635,6 +635,11 @@ impl<TStorage: ?Sized + ReadableStorageTraits + 'static> ArrayShardedReadableExt
                             )?;
                         }
                         unsafe { output.set_len(size_output) };
+                        #[cfg(zarrs_verif)]
+                        crate::storage::verif_hooks::emit(
+                            "view.publish",
+                            &[output.as_ptr() as u64, output.len() as u64],
+                        );
                         Ok(ArrayBytes::from(output))
                     }
                 }
